@@ -249,6 +249,16 @@ type decoder struct {
 	rd io.Reader
 }
 
+// fits reports whether n more bytes can still be read from the input, when
+// the input's remaining length is known. It is used to refuse length and count
+// fields that claim more than the message holds before allocating for them.
+func (d *decoder) fits(n uint64) bool {
+	if l, ok := d.rd.(interface{ Len() int }); ok {
+		return n <= uint64(l.Len())
+	}
+	return true
+}
+
 // read9p extracts values from rd and unmarshals them to the targets of vs.
 func (d *decoder) decode(vs ...interface{}) error {
 	for _, v := range vs {
@@ -264,6 +274,10 @@ func (d *decoder) decode(vs ...interface{}) error {
 				return err
 			}
 
+			if !d.fits(uint64(ll)) {
+				return io.ErrUnexpectedEOF
+			}
+
 			if ll > 0 {
 				*v = make([]byte, int(ll))
 			}
@@ -277,6 +291,10 @@ func (d *decoder) decode(vs ...interface{}) error {
 			// implement string[s] encoding
 			if err := d.decode(&ll); err != nil {
 				return err
+			}
+
+			if !d.fits(uint64(ll)) {
+				return io.ErrUnexpectedEOF
 			}
 
 			b := make([]byte, ll)
@@ -296,6 +314,11 @@ func (d *decoder) decode(vs ...interface{}) error {
 
 			if err := d.decode(&ll); err != nil {
 				return err
+			}
+
+			// every string takes at least its 2-byte length.
+			if !d.fits(2 * uint64(ll)) {
+				return io.ErrUnexpectedEOF
 			}
 
 			elements := make([]interface{}, int(ll))
@@ -325,6 +348,11 @@ func (d *decoder) decode(vs ...interface{}) error {
 				return err
 			}
 
+			// every qid takes 13 bytes.
+			if !d.fits(13 * uint64(ll)) {
+				return io.ErrUnexpectedEOF
+			}
+
 			elements := make([]interface{}, int(ll))
 			*v = make([]Qid, int(ll))
 			for i := range elements {
@@ -339,6 +367,10 @@ func (d *decoder) decode(vs ...interface{}) error {
 
 			if err := d.decode(&ll); err != nil {
 				return err
+			}
+
+			if !d.fits(uint64(ll)) {
+				return io.ErrUnexpectedEOF
 			}
 
 			b := make([]byte, ll)
